@@ -215,6 +215,8 @@ func checkC08(r *core.Run, p *core.Program) {
 	r.Assume("the bound through the event receiver holds when the rules validator is in the chain (the default for Unmarshal; a bare Decoder with a user receiver relies on that receiver)")
 	a := newAnalysis(p)
 	checkTaint(r, p, a, "C08.taint")
+	r.Rule("C08.incremental", "a structural necessary condition of roughly linear time: the handlers that run once per array data event (the validator's chunk-data rules, the builder's and the CTE encoder's AddArrayData) do work proportional to the event - they never hand a buffer that accumulates over the whole array (a slice field appended to on the data path and only emptied when an array begins) to a scanning or validating call; such a call makes an array delivered in k pieces cost k times its length.")
+	c08Incremental(r, p)
 
 	// growth factor
 	for _, spec := range []struct{ rel, name string }{{"cbe", "Reader.expandBufferTo"}, {"cbe", "Writer.ExpandBufferTo"}} {
@@ -294,4 +296,90 @@ func checkC08(r *core.Run, p *core.Program) {
 	r.Floor("C08.chunk-bound", "contexts accepting array chunks", n, 3)
 	checkCtxPrimitives(r, p, a, "C08.chunk-bound", "BeginChunkAnyType", "BeginChunkString", "markUpcomingChunkByteCount", "validateArrayTotalByteCount", "beginArray")
 	_ = constant.MakeBool
+}
+
+// c08Incremental: per-data-event handlers never pass an array-long accumulator to a call.
+func c08Incremental(r *core.Run, p *core.Program) {
+	type handler struct {
+		f *fn
+	}
+	var hs []*fn
+	for _, f := range funcsOf(p.Pkg("rules")) {
+		if f.Obj.Name() == "OnArrayData" && recvNamed(f.Obj) != nil && strings.HasSuffix(recvNamed(f.Obj).Obj().Name(), "Rule") {
+			// generated rejecting defaults have nothing to check
+			hs = append(hs, f)
+		}
+	}
+	for _, spec := range []struct{ rel, name string }{{"builder", "Context.AddArrayData"}, {"cte", "arrayEncoderEngine.AddArrayData"}, {"cte", "arrayEncoderEngine.appendStringbuffer"}} {
+		if f := findFn(p, spec.rel, spec.name); f != nil {
+			hs = append(hs, f)
+		} else {
+			r.Undecided("C08.incremental", spec.rel+"."+spec.name)
+		}
+	}
+	// accumulators: slice fields assigned from append(field, …) somewhere and truncated ([:0]) only in functions named begin*/Begin*/reset/Reset
+	n := 0
+	for _, f := range hs {
+		info := f.Pkg.TypesInfo
+		if newAnalysis(p).alwaysPanics(info, f.Decl.Body.List) {
+			continue
+		}
+		n++
+		bad := ""
+		var badPos token.Pos
+		inspectCalls(info, f.Decl.Body, func(call *ast.CallExpr, c *types.Func) {
+			if id, ok := call.Fun.(*ast.Ident); ok && (id.Name == "append" || id.Name == "len" || id.Name == "cap" || id.Name == "copy") {
+				return
+			}
+			for _, arg := range call.Args {
+				fv := fieldOf(info, arg)
+				if fv == nil {
+					continue
+				}
+				if _, isSlice := fv.Type().Underlying().(*types.Slice); !isSlice {
+					continue
+				}
+				if isArrayLongAccumulator(p, fv) {
+					bad = "the accumulated buffer " + fv.Name() + " is handed to " + exprStr(call.Fun)
+					badPos = call.Pos()
+				}
+			}
+		})
+		r.Check("C08.incremental", f.Name()+"|work proportional to the data event", badPos, bad == "",
+			bad+" on every data event: the cost of an array delivered in k pieces grows with k times its length (quadratic decoding time for documents made of many small chunks)")
+	}
+	r.Floor("C08.incremental", "per-data-event handlers", n, 6)
+}
+
+// isArrayLongAccumulator: the field grows by append on some path and is emptied ([:0] / nil / make) only by functions that begin an array or reset.
+func isArrayLongAccumulator(p *core.Program, fv *types.Var) bool {
+	pkg := p.Pkgs[core.Rel(fv.Pkg())]
+	if pkg == nil {
+		return false
+	}
+	info := pkg.TypesInfo
+	grows, emptiedOnDataPath := false, false
+	for _, f := range funcsOf(pkg) {
+		name := strings.ToLower(f.Decl.Name.Name)
+		beginLike := strings.HasPrefix(name, "begin") || strings.HasPrefix(name, "reset") || name == "init"
+		ast.Inspect(f.Decl.Body, func(n ast.Node) bool {
+			as, ok := n.(*ast.AssignStmt)
+			if !ok || len(as.Lhs) != 1 || len(as.Rhs) != 1 || fieldOf(info, as.Lhs[0]) != fv {
+				return true
+			}
+			if call, ok := as.Rhs[0].(*ast.CallExpr); ok {
+				if id, ok := call.Fun.(*ast.Ident); ok && id.Name == "append" && len(call.Args) > 0 && fieldOf(info, call.Args[0]) == fv {
+					grows = true
+					return true
+				}
+			}
+			if sl, ok := stripParens(as.Rhs[0]).(*ast.SliceExpr); ok && fieldOf(info, sl.X) == fv && sl.High != nil {
+				if c, ok := constInt(info, sl.High); ok && c == 0 && !beginLike {
+					emptiedOnDataPath = true
+				}
+			}
+			return true
+		})
+	}
+	return grows && !emptiedOnDataPath
 }
